@@ -19,6 +19,9 @@ Definition mk_prog (shapes : list (list nat)) (D : list (nat * nat * list (list 
          (lookup1 false expects) (lookup1 None gfn) (lookup1 None edge) (lookup1 [] next)
          (lookup1 None acc) (lookup1 false saved) (length next).
 
+Definition mk_egraph (next : list (list (option (nat * nat)))) (onr : list nat) : egraph :=
+  mkEgraph (lookup1 [] next) (lookup1 0%nat onr).
+
 Definition err_code (e : err) : nat :=
   match e with ValueError => 1 | RuntimeError => 2 | TypeError => 3 end.
 Definition res_code {A} (r : res A) : nat := match r with Ok _ => 0 | Err e => err_code e end.
